@@ -17,19 +17,19 @@ PreEntry(p) == IF p < 0 THEN Absent ELSE IF p = 0 THEN File(<<>>) ELSE File(<<[i
 Blank(p) ==
   /\ disk = [act |-> PreEntry(p), arch |-> [i \in Idx |-> Absent]]
   /\ W = (IF p > 0 THEN <<[id |-> 0, sz |-> p]>> ELSE <<>>) /\ refAct = (IF p > 0 THEN <<[id |-> 0, sz |-> p]>> ELSE <<>>)
-  /\ hist = <<>> /\ writer = [open |-> FALSE, len |-> 0]
+  /\ hist = <<>> /\ writer = Closed
   /\ pc = "down" /\ cur = [id |-> 0, sz |-> 0] /\ ri = 0 /\ after = "none"
   /\ used = FALSE /\ acked = {} /\ nextId = 1
-  /\ fault = NoFault /\ nFaults = 0 /\ nCrash = 0 /\ nRestart = 0 /\ nObst = 0
+  /\ fault = NoFault /\ nFaults = 0 /\ nCrash = 0 /\ nRestart = 0 /\ nObst = 0 /\ nEnc = 0
   /\ ref = <<>> /\ rolls = 0 /\ res = "none"
 TInit == Blank(-1) /\ l = 1 /\ TLCSet(1, 0)
 TReset == /\ Is("reset")
           /\ disk' = [act |-> PreEntry(Ev.pre), arch |-> [i \in Idx |-> Absent]]
           /\ W' = (IF Ev.pre > 0 THEN <<[id |-> 0, sz |-> Ev.pre]>> ELSE <<>>) /\ refAct' = W'
-          /\ hist' = <<>> /\ writer' = [open |-> FALSE, len |-> 0]
+          /\ hist' = <<>> /\ writer' = Closed
           /\ pc' = "down" /\ cur' = [id |-> 0, sz |-> 0] /\ ri' = 0 /\ after' = "none"
           /\ used' = FALSE /\ acked' = {} /\ nextId' = 1
-          /\ fault' = NoFault /\ nFaults' = 0 /\ nCrash' = 0 /\ nRestart' = 0 /\ nObst' = 0
+          /\ fault' = NoFault /\ nFaults' = 0 /\ nCrash' = 0 /\ nRestart' = 0 /\ nObst' = 0 /\ nEnc' = 0
           /\ ref' = <<>> /\ rolls' = 0 /\ res' = "none"
 TBuild == Is("build") /\ Build /\ Same(Snap', Ev.disk)
 TStart == Is("start") /\ nextId = Ev.id /\ Start(Ev.sz)
